@@ -302,3 +302,13 @@ Fixpoint mism_from (k : nat) (l : list (qube * obs)) : list nat :=
   | (c, o) :: t => if obs_eqb (run11 c) o then mism_from (S k) t else k :: mism_from (S k) t
   end.
 Definition mismatches := mism_from 0.
+
+(* ---------------- effects of __getstate__ on the pickled object itself ---------------- *)
+(* The code works on clone = self.clone(recursive=False): PICKLE_VERSION, VALS_ENCODING,
+   MASK_ENCODING, _pickle_digits/_pickle_reference (by _check_pickle_digits) and the encoded
+   _mask_/_values_ are attributes of the clone. On self it only reads; the properties
+   self.corners / self.antimask / self._slicer fill self._cache_ (keys 0,1,2 here). *)
+Record pyobj := mkpy { py_q : qube; py_cache : list nat; py_attrs : list nat }.
+Definition getstate_eff (cd : codec) (o : pyobj) : pyobj * pstate :=
+  let touched := match snd (getstate0 cd (core (py_q o))) with Some _ => [0; 1; 2] | None => [] end in
+  (mkpy (py_q o) (touched ++ py_cache o) (py_attrs o), getstate cd (py_q o)).
